@@ -18,7 +18,8 @@ for d in sorted(glob.glob('/verif/seeded/*')):
     rows.append(f"| {os.path.basename(d)} | {title} | {needs} | {'yes' if conf else 'NOT CONFIRMED'} | {'**caught**' if chk.get('detected') else '**MISSED**'} `{sig}`" + (f" (also {', '.join(others)})" if others else '') + f" | {m.get('strengthened','')} |")
 table = "| seed | change (as described by its author) | needs to manifest | claims confirmed (suite passes, demo fails with / passes without) | result of the property's quick check | strengthening it prompted |\n|---|---|---|---|---|---|\n" + "\n".join(rows)
 p = '/verif/DESIGN.md'; s = open(p).read()
-s = re.sub(r'<!-- SEEDED-TABLE -->.*?<!-- /SEEDED-TABLE -->', '<!-- SEEDED-TABLE -->\n' + table + '\n<!-- /SEEDED-TABLE -->', s, flags=re.S)
+repl = '<!-- SEEDED-TABLE -->\n' + table + '\n<!-- /SEEDED-TABLE -->'
+s = re.sub(r'<!-- SEEDED-TABLE -->.*?<!-- /SEEDED-TABLE -->', lambda m: repl, s, flags=re.S)
 open(p, 'w').write(s)
 n = len(rows); c = sum('**caught**' in r for r in rows)
 print(f"{n} seeds, {c} caught")
